@@ -518,6 +518,21 @@ pub fn format_swift_amount_min_decimals(amount: f64, min_decimals: usize) -> Str
 /// assert_eq!(format_swift_amount_for_currency(123.456, "BHD"), "123,456");
 /// ```
 pub fn format_swift_amount_for_currency(amount: f64, currency: &str) -> String {
+    // 15d: padding zeros must not push a very large amount over the length limit
+    fit_amount_length(format_swift_amount_unfitted(amount, currency), 15)
+}
+
+/// Drop padding zeros after the decimal separator while the amount is longer than `max_len`
+///
+/// "9999999999999,00" (16 characters) is not a valid `15d` amount, "9999999999999," is.
+pub fn fit_amount_length(mut formatted: String, max_len: usize) -> String {
+    while formatted.len() > max_len && formatted.contains(',') && formatted.ends_with('0') {
+        formatted.pop();
+    }
+    formatted
+}
+
+fn format_swift_amount_unfitted(amount: f64, currency: &str) -> String {
     let decimals = get_currency_decimals(currency);
     format_swift_amount(amount, decimals as usize)
 }
